@@ -398,6 +398,18 @@ func (x *Extractor) walkAtBody(fn *ssa.Function, e *env, mf *MethodFacts, via []
 					mf.FieldsSet[g.Name()] = append(mf.FieldsSet[g.Name()], describeVal(x.eval(ins.Val, e)))
 					mf.SetOrder = append(mf.SetOrder, g.Name())
 				}
+				// a store into the only field of a wrapper struct reached through such a pointer
+				if fa2, ok := ins.Addr.(*ssa.FieldAddr); ok && !x.isConvPtr(fa2.X.Type()) {
+					if wst, ok := fa2.X.Type().Underlying().(*types.Pointer).Elem().Underlying().(*types.Struct); ok && wst.NumFields() == 1 {
+						if _, isLocal := fa2.X.(*ssa.Alloc); !isLocal {
+							if pv, ok := x.eval(fa2.X, e).(PtrV); ok && pv.FA != nil && x.isConvPtr(pv.FA.X.Type()) {
+								name := structFieldName(pv.FA.X.Type(), pv.FA.Field)
+								mf.FieldsSet[name] = append(mf.FieldsSet[name], describeVal(x.eval(ins.Val, e)))
+								mf.SetOrder = append(mf.SetOrder, name)
+							}
+						}
+					}
+				}
 				// a store through a pointer the function received (a helper that works on &c.field)
 				if _, isParam := ins.Addr.(*ssa.Parameter); isParam {
 					if pv, ok := x.eval(ins.Addr, e).(PtrV); ok && pv.FA != nil && x.isConvPtr(pv.FA.X.Type()) {
@@ -557,6 +569,18 @@ func (x *Extractor) walkEffects(fn *ssa.Function, e *env, mf *MethodFacts, seen 
 				if g, ok := ins.Addr.(*ssa.Global); ok && g.Pkg == fn.Pkg {
 					mf.FieldsSet[g.Name()] = append(mf.FieldsSet[g.Name()], describeVal(x.eval(ins.Val, e)))
 					mf.SetOrder = append(mf.SetOrder, g.Name())
+				}
+				// a store into the only field of a wrapper struct reached through such a pointer
+				if fa2, ok := ins.Addr.(*ssa.FieldAddr); ok && !x.isConvPtr(fa2.X.Type()) {
+					if wst, ok := fa2.X.Type().Underlying().(*types.Pointer).Elem().Underlying().(*types.Struct); ok && wst.NumFields() == 1 {
+						if _, isLocal := fa2.X.(*ssa.Alloc); !isLocal {
+							if pv, ok := x.eval(fa2.X, e).(PtrV); ok && pv.FA != nil && x.isConvPtr(pv.FA.X.Type()) {
+								name := structFieldName(pv.FA.X.Type(), pv.FA.Field)
+								mf.FieldsSet[name] = append(mf.FieldsSet[name], describeVal(x.eval(ins.Val, e)))
+								mf.SetOrder = append(mf.SetOrder, name)
+							}
+						}
+					}
 				}
 				// a store through a pointer the function received (a helper that works on &c.field)
 				if _, isParam := ins.Addr.(*ssa.Parameter); isParam {
